@@ -58,6 +58,15 @@ for cfg in ("E", "D"):
             t = blk["term"]
             if t["k"] == "call" and not blk["cleanup"]:
                 cs.add(t.get("decl") or t["callee"])
+tls = {}
+for cfg in ("E", "D"):
+    d, info = build.build(cfg)
+    f = Facts(d, info)
+    for k, c in f.consts.items():
+        m = re.match(r"std::thread::local::LocalKey<(.*)>$", c.get("ty", ""))
+        if m:
+            tls.setdefault(k.split("::", 1)[0], {})[k] = m.group(1)
+res["__tls__"] = tls
 res["__callees__"] = {c: {k: sorted(v) for k, v in sorted(m.items())} for c, m in sorted(callees.items())}
 json.dump(res, open(os.path.join(HERE, "rules", "known_fns.json"), "w"), indent=0)
 print({k: len(v) for k, v in out.items()})
